@@ -20,7 +20,7 @@ RULE = (
     "X-ENUM, complete over: 18 binary operators x all ordered operand pairs from a 15-value set (domain-filtered per operator as "
     "the property's quantifier says), 2 unary operators and 10 math functions x 15 values, atan2 x pairs, HASH/STR strings, "
     "constant-list subscripts, named constants, each in 9 propagation shapes (direct, one variable, two variables, argument of an "
-    "inlined / out-of-line call, global read in a function, if test, range bound, list index, loop-invariant).  Every pair yields two "
+    "inlined / out-of-line call, global read in a function, if test, range bound, list index, loop-invariant); plus the CONSTPROP programs (13 shapes x constants in which a variable, parameter or global receives a constant in only one of several assignments: propagation must not fire; explored by X-RUN against the reference executor).  Every pair yields two "
     "compilations (literal operands / operands read from the stack); both emitted programs are executed on the explicit-state IC10 "
     "machine under the environment that answers exactly those operand values, plus the reference executor on the literal form; all "
     "effect traces must be equal.  A case (template) is non-trivial when at least one of its literal forms was really folded (fewer "
@@ -186,6 +186,13 @@ def build_cases(tier):
     for c in cases:
         blob = json.dumps([c["family"], c["expr"], c["shape"], c["shape_t"], c["pairs"], c["variants"]], sort_keys=True)
         c["key"] = hashlib.sha256(blob.encode()).hexdigest()[:16]
+    # propagation must NOT happen for variables / parameters / globals that also receive a non-constant value
+    from .. import families as F
+
+    for c in F.constprop(tier):
+        c = dict(c, variants=[{}, {"inline_functions": False}, {"inline_functions": False, "use_push_pop_functions": True}, {"compact": True, "remove_labels": True}], xrun=True, monitors=[], pairs=[1], expr=c["tag"], shape="program")
+        c["key"] = xcase.case_key(c)
+        cases.append(c)
     seen, out = set(), []
     for c in cases:
         if c["key"] not in seen and c["pairs"]:
@@ -309,6 +316,12 @@ def n_arith(text):
 
 
 def run_case(case):
+    if case.get("xrun"):
+        # whole programs explored by X-RUN against the reference executor (constant propagation must not fire)
+        o = xcase.run_case(case)
+        o["stats"]["folded"] = 1
+        o["stats"]["pairs"] = o["stats"].get("executions", 0)
+        return o
     out = {"key": case["key"], "family": case["family"], "symptom": None, "detail": None}
     st = {"compiles": 0, "codes": 0, "executions": 0, "transitions": 0, "states": 0, "traces": 0, "ref_compared": 0, "folded": 0, "pairs": len(case["pairs"]), "rejected": 0}
     out["stats"] = st
